@@ -701,10 +701,10 @@ func init() {
 		Required: c14Required,
 		Streams: []fw.Stream{
 			{Name: "probes", Quick: len(c14Probes), Thorough: len(c14Probes), Run: c14RunProbe},
-			{Name: "parse", Quick: 800000, Thorough: 24000000, Run: c14RunParse},
-			{Name: "int", Quick: 200000, Thorough: 4000000, Run: c14RunInt},
-			{Name: "float", Quick: 200000, Thorough: 5000000, Run: c14RunFloat},
-			{Name: "number", Quick: 400000, Thorough: 10000000, Run: c14RunNumber},
+			{Name: "parse", Quick: 800000, Thorough: 72000000, Run: c14RunParse},
+			{Name: "int", Quick: 200000, Thorough: 12000000, Run: c14RunInt},
+			{Name: "float", Quick: 200000, Thorough: 15000000, Run: c14RunFloat},
+			{Name: "number", Quick: 400000, Thorough: 30000000, Run: c14RunNumber},
 		},
 	})
 }
